@@ -36,6 +36,9 @@ func verifC06Ref(kind int, producer bool) (string, bool) {
 		return "E", false
 	case verifTurnError, verifTurnPanic:
 		return "E", false
+	case verifTurnLogNoEmit, verifTurnLogError, verifTurnEmitError, verifTurnEmitPanic:
+		// whatever the failed turn had collected (a log, a data batch) is dropped
+		return "E", false
 	default: // emit then finish
 		if producer {
 			return "D", false
@@ -47,7 +50,7 @@ func verifC06Ref(kind int, producer bool) (string, bool) {
 // The lockstep contract on a pipe.
 //
 //verif:use ipc pipe handler
-//verif:bound one stream call through serveOne/serveStream: producer, exchange or producer-with-header method; init handler returns a state (logging 0..1 message) ; 0..3 input batches with a cancel batch (zero-row, or a data-shaped batch tagged vgi_rpc.cancel) at any position or none; the first 2 (quick) / 3 (thorough) turns each have ANY of 8 outcomes (emit, log+emit, no emit, double emit, Finish, error, panic, emit+Finish), later turns emit (exchange) or finish (producer); header present or nil. Abstract IPC, ghost handler.
+//verif:bound one stream call through serveOne/serveStream: producer, exchange or producer-with-header method; init handler returns a state (logging 0..1 message) ; 0..3 input batches with a cancel batch (zero-row, or a data-shaped batch tagged vgi_rpc.cancel) at any position or none; the first 2 (quick) / 3 (thorough) turns each have ANY of 12 outcomes (emit, log+emit, no emit, double emit, Finish, error, panic, emit+Finish, log without a data batch, log then error, emit then error, emit then panic), later turns emit (exchange) or finish (producer); header present or nil. Abstract IPC, ghost handler.
 func verifH_C06_lockstep() {
 	verifResetIPC()
 	verifResetHandler()
@@ -56,7 +59,7 @@ func verifH_C06_lockstep() {
 	nt := verifC06Turns()
 	turns := make([]int, nt)
 	for i := range turns {
-		turns[i] = verifChoice("turn", verifNTurnKinds)
+		turns[i] = verifChoice("turn", verifNTurnKindsExt)
 	}
 	var ps *verifPipeState
 	var state interface{}
